@@ -16,6 +16,7 @@ from Crypto.Signature import DSS, eddsa
 from .. import core, drive
 from ..indep import envmodel, mcbor
 from . import common
+from ..mon import faults
 
 SIGN_SCRIPT = os.path.join(core.REPO, "ncs", "sign_script.py")
 KMS_SCRIPT = os.path.join(core.REPO, "ncs", "basic_kms.py")
@@ -134,6 +135,7 @@ def purge_modules():
         del sys.modules[k]
 
 
+@faults.guarded()
 def sign_file(src, dst, key, kid, alg, keysdir, action="error", route="cmd", workdir=None):
     """-> drive.Outcome (value = output bytes)"""
     try:
@@ -160,7 +162,9 @@ def sign_file(src, dst, key, kid, alg, keysdir, action="error", route="cmd", wor
                 if rc != 0:
                     return drive.Outcome(False, exc=RuntimeError(f"cli exit {rc}: {err[-300:]}"), route=route)
         if not drive.written(dst):
-            return drive.Outcome(False, exc=RuntimeError("no output file written"), route=route)
+            o = drive.Outcome(False, exc=RuntimeError("no output file written"), route=route)
+            o.tool_ok = True
+            return o
         with open(dst, "rb") as fh:
             return drive.Outcome(True, fh.read(), route=route)
     except Exception as e:  # noqa
